@@ -231,11 +231,11 @@ HARNESSES = [
                     'objects belong to no database and can be added again; close only outside a transaction; a reused connection '
                     'keeps no uncommitted state; other connections see only committed data',
             symbolic='n step codes over 16 operations (incl. 5 failing-commit variants, a commit failing inside the connection while it serialises new objects, close/reopen, and another connection committing a change so that our commit conflicts)',
-            bounds='program length n per shard (quick 3 exhaustively + length 4 split by first step; thorough up to 5), 2 committed objects at start',
+            bounds='program length n per shard (quick: 3 exhaustively - split by first step - + length 4 for 10 first steps; thorough up to 5), 2 committed objects at start',
             oracle='ownership/state model (zverif/progs.py) + records of each commit from storage iteration',
             code=['Connection.add/_register/commit/_commit/_store_objects/tpc_begin/tpc_vote/tpc_finish/tpc_abort/abort/_abort/'
                   '_invalidate_creating/_tpc_cleanup/close/open', 'ObjectWriter.serialize', 'DB.open/_returnToPool'],
-            quick=dict(timeout=320, shards=shards(n=[3], storage=['file'], first=['any']) + shards(n=[4], storage=['file'], first=_FIRST)),
+            quick=dict(timeout=400, shards=shards(n=[3], storage=['file'], first=CODES) + shards(n=[4], storage=['file'], first=_FIRST)),
             thorough=dict(timeout=3000, shards=shards(n=[3], storage=['file', 'mapping', 'demo'], first=['any'])
                           + shards(n=[4], storage=['file', 'mapping'], first=CODES) + shards(n=[5], storage=['file'], first=CODES))),
     Harness('new_objects', _roundtrip,
